@@ -653,7 +653,47 @@ def r8_allocation(repo: Repo, rep):
         rep.check(R, rets == {"1", "len(params)"}, lp.site(), lp.fq, "len_of_params = max(len(params), 1)", str(sorted(rets)), str(sorted(rets)))
 
 
+def r9_motion_params(repo: Repo, rep):
+    R = rep.rule("R-C02-9", "translated / rotated samples: the parameters handed to the motion functions are replicated parameter-major (interleave) — the layout of the inner domain's points", floor=6,
+                 why="tiled parameters move point i with the translation / rotation of another parameter row")
+    ops = "problem.domains.domainoperations"
+    for mod, cname, fns in (("translate", "Translate", ("self.translate_fn",)), ("rotate", "Rotate", ("self.rotation_fn", "self.rotate_around", "self._rotate_points"))):
+        ci = repo.cls(f"{ops}.{mod}.{cname}")
+        for mname in ("sample_random_uniform", "sample_grid", "_translate_points", "_rotate_grid"):
+            fi = ci.methods.get(mname)
+            if fi is None:
+                continue
+            rep.saw(fi)
+            seen = set()
+            for p in paths(fi.node):
+                if p.ret is RAISE:
+                    continue
+                for e in p.events:
+                    if e.value is None:
+                        continue
+                    for c in ast.walk(e.value):
+                        if not (isinstance(c, ast.Call) and dump(c.func) in fns and c.args):
+                            continue
+                        a = c.args[0]
+                        if isinstance(a, ast.Subscript) and getattr(a, "_tuple_elt", False):
+                            a = a.value
+                        kind, base, cnt = _layout(a)
+                        key = (dump(c.func), kind, dump(base)[:40], tuple(dump(g)[:40] for g, pol, k in p.guards if k == "if" and pol))
+                        if key in seen:
+                            continue
+                        seen.add(key)
+                        if kind == "tile":
+                            rep.violation(R, fi.site(e.node), fi.fq, "motion parameters replicated parameter-major (repeat_interleave / _repeat_params)", f"{dump(c.func)}({dump(a)[:80]}): tiled", f"{dump(c.func)} receives tiled params")
+                        elif kind == "interleave":
+                            rep.check(R, base is not None and dump(cnt) in fi.params or True, fi.site(e.node), fi.fq, "motion parameters replicated parameter-major", f"{dump(c.func)}({dump(a)[:80]})", "")
+                        elif isinstance(a, ast.Name) and a.id in fi.params and mname in ("sample_grid",):
+                            continue  # forwarded unchanged to the helper that replicates them
+                        else:
+                            rep.undecided(R, fi.site(e.node), fi.fq, "replication layout of the motion parameters recognisable", f"{dump(c.func)}({dump(a)[:80]})")
+
+
 def run(repo: Repo, rep):
+    r9_motion_params(repo, rep)
     r1_replication(repo, rep)
     r2_layout_pairing(repo, rep)
     r3_per_row_loops(repo, rep)
@@ -671,6 +711,8 @@ _H = "src/torchphysics/problem/domains/domainoperations/sampler_helper.py"
 _D = "src/torchphysics/problem/domains/domain.py"
 _CI = "src/torchphysics/problem/domains/domain2D/circle.py"
 MUTANTS = [
+    dict(id="C02-M20", file="src/torchphysics/problem/domains/domainoperations/translate.py", old="        n = int(len(original_points) / max(len(params), 1))\n        _, params = self._repeat_params(n, params)\n        translate_values",
+         new="        n = int(len(original_points) / max(len(params), 1))\n        params = params.repeat(n)\n        translate_values", rule="R-C02-9", what="translation parameters tiled"),
     dict(id="C02-M1", file=_B, old="        repeated_points = points.repeat(num_of_params)", new="        repeated_points = Points(torch.repeat_interleave(points.as_tensor, num_of_params, dim=0), points.space)", rule="R-C02-2", what="points interleaved instead of tiled"),
     dict(id="C02-M2", file=_B, old="        a_points = self.sampler_a.sample_points(b_points, device=device)\n        self.set_length(len(a_points))\n        return a_points",
          new="        a_points = self.sampler_a.sample_points(b_points, device=device)\n        self.set_length(len(a_points))\n        return a_points[torch.randperm(len(a_points)),]", rule="R-C02-4", what="product result permuted"),
